@@ -36,6 +36,7 @@ from ..impl import mx, close_all, quiet, err_kind
 KEY_TWO_FAILED = "C14-failed-dir-save-then-save"
 KEY_LOAD_RENAME = "C14-failed-load-renames-existing"
 KEY_ZIP_TRUNC = "C14-zip-reopen-error-truncates-archive"
+KEY_RETRY_CLOSE = "C14-copyfile-retry-after-failed-close-drops-members"
 NSLOTS = 5          # path, _BAK1 .. _BAK4 (the last one must never exist)
 
 _sys = mx.core.mxsys
@@ -213,6 +214,7 @@ class World:
         self.refs = {}            # (fmt, g) -> signature
         self.expected = {}        # g -> description
         self.snapn = 0
+        self.probed = set()       # (format, generation) of the complete copies already loaded back
 
     # ---- saving
     def _save(self, fmt, path, backup=True):
@@ -301,6 +303,11 @@ class World:
         shutil.copytree(snap, self.work, symlinks=True)
         self.clean_T()
 
+    def residue(self):
+        """what a save or load left in the temporary directory (openpyxl's own temporary files, which
+        it does not remove when writing a sheet fails, are not modelx's)"""
+        return sorted(n for n in os.listdir(self.T) if not n.startswith("openpyxl."))
+
     def clean_T(self):
         for n in os.listdir(self.T):
             p = os.path.join(self.T, n)
@@ -326,8 +333,9 @@ def tokens_of(trace, complete, fmt=None):
     path; `W` the last one), zip format: `move`;  both: `t` (an operation in the temporary directory),
     `c` / `r` (zipfile.ZipFile opens a new or still empty / an already filled archive for update: an
     OSError of that open is swallowed by zipfile's file-mode retry, which for `r` truncates), `p` (an
-    operation under a handler that absorbs one PermissionError and tries again: ZipFile.write/close
-    inside ziputil.copy_file's GH82 loop, the unlink/rmdir of TemporaryDirectory.cleanup)."""
+    operation under a handler that absorbs one PermissionError and tries again: ZipFile.write inside
+    ziputil.copy_file's GH82 loop, the unlink/rmdir of TemporaryDirectory.cleanup), `q` (the close of
+    the archive inside that loop: the next attempt finds an archive without central directory)."""
     zip_targets = set()
     for ent in trace:
         for a in ent[1:]:
@@ -378,7 +386,7 @@ def tokens_of(trace, complete, fmt=None):
             toks.append("p")
         elif name == "zip.close" and in_copy and a0.startswith("zip:") and _is_tmp_archive(a0[4:]):
             in_copy = False
-            toks.append("p")
+            toks.append("q")
         elif in_P or (name.startswith("pickle") and fmt == "dir"):
             toks.append("w")
         elif in_T or (name.startswith("pickle") and fmt == "zip"):
@@ -407,13 +415,39 @@ def sizes_of(toks):
     nrm = sum(1 for t in toks if t.startswith("rm"))
     if "move" in toks:
         k = toks.index("move")
-        n1 = "".join(t for t in toks[:k] if t in ("t", "c", "r", "p")) or "-"
+        n1 = "".join(t for t in toks[:k] if t in ("t", "c", "r", "p", "q")) or "-"
         n2 = sum(1 for t in toks[k + 1:] if t == "p")
     else:
         body = [t for t in toks if t in ("w", "W", "t", "c")]
         n1 = "".join(body[:-1]) or "-"
         n2 = 0
     return max(nrm, 1), n1, n2
+
+
+POLCODE = {("os", "once"): "os1", ("os", "persist"): "osP", ("perm", "once"): "perm1", ("perm", "persist"): "permP",
+           # a FileNotFoundError is an OSError that no handler of the save path singles out
+           ("notfound", "once"): "os1", ("notfound", "persist"): "osP"}
+SENSITIVE = ("c", "r", "p", "q", "move")      # tokens at which the outcome depends on the policy
+
+
+def policy_allowed(entry, tok, exc, policy):
+    """CPython's TemporaryDirectory._rmtree calls itself without bound when the `rmdir` of a directory
+    keeps raising PermissionError (tempfile.py, `except IsADirectoryError: cls._rmtree(path, ...)`):
+    standard-library behaviour, nothing of modelx runs - not injected"""
+    return not (entry[0] == "rmdir" and exc == "perm" and policy == "persist")
+
+
+def trunc_key_of(tok, exc, policy):
+    """the recognised triggers of the two archive findings: a transient error at a re-opening of the
+    temporary archive (swallowed by zipfile, whose next file mode truncates), a transient
+    PermissionError at the close of the archive inside copy_file's retry loop"""
+    if policy != "once":
+        return None
+    if tok == "r":
+        return KEY_ZIP_TRUNC
+    if tok == "q" and exc == "perm":
+        return KEY_RETRY_CLOSE
+    return None
 
 
 def strip_part(state):
@@ -428,12 +462,16 @@ def world_fmt_of(hist, g):
     return hist[0]["hist"][g - 1]["fmt"]
 
 
+def world_fmt_of_slot(state):
+    return state.split(":")[1]
+
+
 def gen_of(state):
     return int(state.split(":")[2]) if state.startswith("good") else None
 
 
 def check_save(world, out, hist_txt, pre, post, raised, fmt, g, backup, fired_after_move, stats, probe,
-               at_reopen=False, all_ok_so_far=False):
+               trunc_key=None, all_ok_so_far=False, zcause=None):
     """the statement, on what the implementation left on disk"""
     m = world.model
 
@@ -446,26 +484,27 @@ def check_save(world, out, hist_txt, pre, post, raised, fmt, g, backup, fired_af
         fail("a save changed the registered models: %s" % sorted(reg))
     if _sys.serializing is not None or _sys.iomanager.serializing is not None:
         fail("serializing flag still set after a %s save" % ("failed" if raised else "successful"))
-    if os.listdir(world.T) and not fired_after_move:
-        fail("temporary directory left behind after a %s save" % ("failed" if raised else "successful"))
+    if world.residue() and not fired_after_move:
+        fail("temporary directory left behind after a %s save" % ("failed" if raised else "successful"),
+             detail={"left": world.residue()})
     world.clean_T()
     if not backup:
         return
     # the recognised triggers: the save starts from a path that holds a partial copy - a directory
     # tree left by a failed directory save, or an archive truncated by zipfile's retry
     trigger = pre[0].startswith("part")
-    key = {"part:dir": KEY_TWO_FAILED, "part:zip": KEY_ZIP_TRUNC}.get(pre[0])
+    key = {"part:dir": KEY_TWO_FAILED, "part:zip": zcause or KEY_ZIP_TRUNC}.get(pre[0])
     if trigger:
         stats["trigger_states"] += 1
     # no partial archive, nothing beyond _BAK3
     # the recognised trigger of the zipfile finding: the OSError hit a re-opening of the temporary
     # archive and the save went on to report success
-    zkey = KEY_ZIP_TRUNC if (at_reopen and raised is None and fmt == "zip") else None
+    zkey = trunc_key if (raised is None and fmt == "zip") else None
     for i, s in enumerate(post):
         if s == "part:zip":
             fail("%s holds a partially written archive" % slot_name(i),
                  key=zkey if (i == 0 and pre[0] != "part:zip") else
-                 (KEY_ZIP_TRUNC if s in pre else None))
+                 ((zcause or KEY_ZIP_TRUNC) if s in pre else None))
     if post[NSLOTS - 1] != "-":
         fail("a fourth backup exists")
     # success puts the new generation at the path and the old content at _BAK1
@@ -498,8 +537,12 @@ def check_save(world, out, hist_txt, pre, post, raised, fmt, g, backup, fired_af
     if any(a <= b for a, b in zip(gs, gs[1:])):
         fail("generations out of order: %s" % post)
     # intact = loadable, with the values of that generation
-    if probe and post_g:
+    # (a slot classified complete has the names and contents of the reference save of that generation,
+    # so one load per generation and format says what every such copy loads to)
+    if post_g and (probe or raised is None) and (world_fmt_of_slot(post[max(post_g)[1]]), max(post_g)[0]) \
+            not in world.probed:
         gg, i = max(post_g)
+        world.probed.add((world_fmt_of_slot(post[i]), gg))
         desc = None
         try:
             with quiet():
@@ -530,14 +573,41 @@ def choose_indices(ctx, n, toks, rng):
     if "move" in toks:
         k = toks.index("move")
         keep |= {k - 1, k, k + 1}
+    # the operations under a retry handler / a swallowing caller: the first and the last of each kind,
+    # every ZipFile.write / close of copy_file's loop (one pair per IO data file)
+    for kind in ("c", "r"):
+        idx = [i for i, t in enumerate(toks) if t == kind]
+        keep |= set(idx[:1] + idx[-1:])
+    move_at = toks.index("move") if "move" in toks else n
+    keep |= {i for i, t in enumerate(toks) if t in ("p", "q") and i < move_at}
     keep.add(rng.randrange(n))
     return sorted(i for i in keep if 0 <= i < n)
 
 
+ALL_POLICIES = [("os", "once"), ("os", "persist"), ("perm", "once"), ("perm", "persist")]
+
+
+def choose_policies(ctx, entry, tok, rng, after_move=False):
+    """the ways the chosen operation fails: always a transient OSError; where the calling code has a
+    handler (zipfile's file-mode retry, copy_file's GH82 loop, shutil.move, TemporaryDirectory) every
+    combination of error class and persistence; elsewhere a sample (thorough: every combination)"""
+    if ctx.tier == "thorough" or tok in SENSITIVE:
+        pols = list(ALL_POLICIES)
+        # (a FileNotFoundError in tempdir.cleanup() is ignored by TemporaryDirectory: standard library,
+        # not modelled - the class is not injected there)
+        if not after_move and rng.random() < (1.0 if ctx.tier == "thorough" else 0.15):
+            pols.append(("notfound", "once"))
+    else:
+        pols = [("os", "once")]
+        if rng.random() < 0.35:
+            pols.append(rng.choice(ALL_POLICIES[1:] + ([] if after_move else [("notfound", "persist")])))
+    return [(e, pl) for e, pl in pols if policy_allowed(entry, tok, e, pl)]
+
+
 def run_save_history(ctx, world, hist, out, stats, lines, rng):
-    """hist: list of dicts {fmt, backup, fault: fraction | at: index | neither, variant, enum};
-    an entry with `enum` is executed once for every fault index (it must be the last one).
-    Appends (driver op, implementation observation, replayable history) to `lines`."""
+    """hist: list of dicts {fmt, backup, fault: fraction | at: index | neither, variant, policy, exc,
+    enum}; an entry with `enum` is executed once for every fault index and fault policy (it must be
+    the last one).  Appends (driver op, implementation observation, replayable history) to `lines`."""
     world.reset()
     lines.append(("reset", "ok", None))
     lines.append(("newmodel Saved", None, None))
@@ -545,6 +615,7 @@ def run_save_history(ctx, world, hist, out, stats, lines, rng):
     g = 0
     resolved = []           # the saves executed so far, with absolute fault indices
     txt = []
+    zcause = [None]         # which finding produced the partial archive that is in the chain
     pre = world.classify(gens)
     for idx, sv in enumerate(hist):
         g += 1
@@ -555,7 +626,7 @@ def run_save_history(ctx, world, hist, out, stats, lines, rng):
         # pass 1: no fault, to learn the operation sequence
         raised, inj = world.attempt(fmt, g, None, backup=backup)
         full = list(inj.trace)
-        toks = tokens_of(full, complete=raised is None)
+        toks = tokens_of(full, complete=raised is None, fmt=fmt)
         n = len(full)
         nrm, n1, n2 = sizes_of(toks)
         b = "B" if backup else "N"
@@ -563,13 +634,17 @@ def run_save_history(ctx, world, hist, out, stats, lines, rng):
         post = world.classify(gens)
         base_txt, base_res = list(txt), list(resolved)
 
-        def record(k, variant, raised_k, post_k, fired):
+        def record(k, variant, raised_k, post_k, fired, exc="os", policy="once", nfired=0):
             entry = {"fmt": fmt, "backup": backup, "at": k, "variant": variant}
+            if (exc, policy) != ("os", "once"):
+                entry.update(exc=exc, policy=policy)
             spec = {"type": "save", "model": world.kind, "log_input": world.log_input,
                     "hist": base_res + [entry]}
-            t = base_txt + ["save %s %s g=%d fault=%s%s" % (b, fmt, g, "-" if k is None else k,
-                                                             "" if variant == "before" else ":" + variant)]
-            op = "save %s %s %d %d %s %d %s" % (b, fmt, g, nrm, n1, n2, "-" if k is None else k)
+            pol = "" if (exc, policy) == ("os", "once") else ":%s:%s" % (exc, policy)
+            t = base_txt + ["save %s %s g=%d fault=%s%s%s" % (b, fmt, g, "-" if k is None else k,
+                                                               "" if variant == "before" else ":" + variant, pol)]
+            op = "save %s %s %d %d %s %d %s %s" % (b, fmt, g, nrm, n1, n2, "-" if k is None else k,
+                                                   POLCODE[(exc, policy)])
             obs = "%s plan=%s | %s" % ("ok" if raised_k is None else "fail", compress(toks),
                                        " ".join("%s=%s" % (slot_name(i), s) for i, s in enumerate(post_k)))
             lines.append((op, obs, [spec] + t))
@@ -593,37 +668,61 @@ def run_save_history(ctx, world, hist, out, stats, lines, rng):
             stats["saves"] += 1
             stats["fmt:" + fmt] += 1
             stats["pre_path:" + pre[0].split(":")[0]] += 1
+            tok = toks[k] if k is not None and k < len(toks) else None
+            if k is not None:
+                stats["policy:%s:%s" % (exc, policy)] += 1
+                stats["fault_token:" + (tok.rstrip("0123456789!") if tok else "-")] += 1
+                if raised_k is None:
+                    stats["absorbed:%s:%s:%s" % (tok, exc, policy)] += 1
+                if nfired > 1:
+                    stats["persistent_refired"] += 1
             if raised_k is not None:
                 stats["faulted"] += 1
                 if fired:
                     stats["fault_op:" + fired[0]] += 1
             fam = move_at is not None and k is not None and k > move_at
+            tk = trunc_key_of(tok, exc, policy) if k is not None else None
             check_save(world, out, [spec] + t, pre, post_k, raised_k, fmt, g, backup, fam, stats,
                        probe=(stats["saves"] % ctx.n(3, 1) == 0),
-                       at_reopen=(k is not None and k < len(toks) and toks[k] == "r"),
+                       trunc_key=tk, zcause=zcause[0],
                        all_ok_so_far=(k is None and backup and all(e["at"] is None and e["backup"] for e in base_res)))
-            return t, entry
+            return t, entry, tk
 
         if raised is not None:
             # the unfaulted save itself failed: nothing was injected
-            t, _ = record(None, "before", raised, post, None)
+            t, _, _ = record(None, "before", raised, post, None)
             out.fail("a save with no fault injected raised %s" % raised, lines[-1][2],
                      detail={"pre": pre, "post": post, "trace": [list(e) for e in full]})
             shutil.rmtree(snap, ignore_errors=True)
             return
+        bad = [t for t in toks if t.startswith("?")]
+        if bad:
+            out.fail("operation trace of a save not understood: %s" % bad[:3], [{"type": "save", "model": world.kind,
+                     "log_input": world.log_input, "hist": base_res + [{"fmt": fmt, "backup": backup, "at": None,
+                                                                         "variant": "before"}]}],
+                     detail={"trace": [list(e) for e in full]})
         if not sv.get("enum"):
             k = sv.get("at")
             if k is None and sv.get("fault") is not None:
                 k = min(int(sv["fault"] * n), n - 1)
+            exc, policy = sv.get("exc", "os"), sv.get("policy", "once")
+            if k is not None and k < n and not policy_allowed(full[k], toks[k], exc, policy):
+                exc, policy = "os", "once"
             if k is None or k >= n:
-                txt, entry = record(None, "before", None, post, None)
+                txt, entry, _ = record(None, "before", None, post, None)
                 pre = post
             else:
                 world.restore(snap)
-                raised_k, inj_k = world.attempt(fmt, g, k, sv.get("variant", "before"), backup=backup)
+                raised_k, inj_k = world.attempt(fmt, g, k, sv.get("variant", "before"), backup=backup,
+                                                policy=policy, exc=exc)
                 post_k = world.classify(gens)
-                txt, entry = record(k, sv.get("variant", "before"), raised_k, post_k, inj_k.fired)
+                txt, entry, tk = record(k, sv.get("variant", "before"), raised_k, post_k, inj_k.fired,
+                                        exc=exc, policy=policy, nfired=inj_k.nfired)
+                if tk and raised_k is None and post_k[0] == "part:zip":
+                    zcause[0] = tk
                 pre = post_k
+            if not any(x.startswith("part:zip") for x in pre):
+                zcause[0] = None
             resolved.append(entry)
             shutil.rmtree(snap, ignore_errors=True)
             continue
@@ -631,14 +730,16 @@ def run_save_history(ctx, world, hist, out, stats, lines, rng):
         record(None, "before", None, post, None)
         lines.append(("back", "ok", None))
         for k in choose_indices(ctx, n, toks, rng):
-            variants = ["before"]
-            if full[k][0] == "open:w" and (ctx.tier == "thorough" or rng.random() < 0.3):
-                variants.append("after")
-            for variant in variants:
+            combos = [("before", e, pl) for e, pl in choose_policies(
+                ctx, full[k], toks[k], rng, after_move=move_at is not None and k > move_at)]
+            if full[k][0].startswith("open:w") and (ctx.tier == "thorough" or rng.random() < 0.3):
+                combos.append(("after", "os", "once"))
+            for variant, exc, policy in combos:
                 world.restore(snap)
-                raised_k, inj_k = world.attempt(fmt, g, k, variant, backup=backup)
+                raised_k, inj_k = world.attempt(fmt, g, k, variant, backup=backup, policy=policy, exc=exc)
                 post_k = world.classify(gens)
-                t, _ = record(k, variant, raised_k, post_k, inj_k.fired)
+                t, _, _ = record(k, variant, raised_k, post_k, inj_k.fired, exc=exc, policy=policy,
+                                 nfired=inj_k.nfired)
                 lines.append(("back", "ok", None))
                 stats["enumerated_points"] += 1
                 # a load of what the failed save left behind must not leave anything either
@@ -669,9 +770,9 @@ def check_failed_load(world, out, txt, stats):
         out.fail("serializing flag still set after a failed load", txt)
         _sys.serializing = None
         _sys.iomanager.serializing = None
-    if os.listdir(world.T):
+    if world.residue():
         out.fail("temporary directory left behind after a load", txt)
-        world.clean_T()
+    world.clean_T()
 
 
 def gen_history(rng, length):
@@ -686,6 +787,8 @@ def gen_history(rng, length):
             sv["fault"] = rng.random()
             if rng.random() < 0.3:
                 sv["variant"] = "after"
+            elif rng.random() < 0.5:
+                sv["exc"], sv["policy"] = rng.choice(ALL_POLICIES[1:])
         if rng.random() < 0.04:
             sv["backup"] = False
         hist.append(sv)
@@ -711,6 +814,14 @@ CORPUS = [
     _h(D, Z, D, {"fmt": "zip", "fault": 0.5}, D),
     # a failed directory save followed by a successful one is harmless
     _h(Z, {"fmt": "dir", "fault": 0.9, "variant": "after"}, Z, Z),
+]
+# for the models that own IO data files: a zip save over a zip save, over a directory save, a directory
+# save over a zip save (every operation of the work directory, of archive_dir / copy_file and of the
+# clean-up as fault point, under every policy), a persistent failure in between
+CORPUS_IO = [
+    _h(Z, Z),
+    _h(Z, D),
+    _h(D, {"fmt": "zip", "fault": 0.85, "exc": "perm", "policy": "persist"}, Z),
 ]
 
 
@@ -778,6 +889,8 @@ def damage(path, fmt, how, member):
 
 
 PRE = ["none", "other", "same", "same+other"]
+LOAD_POLICIES = [("os", "once"), ("os", "persist"), ("perm", "once"), ("perm", "persist"),
+                 ("notfound", "once"), ("notfound", "persist")]
 
 
 class LoadWorld:
@@ -846,7 +959,8 @@ def run_load_case(lw, spec, out, stats, lines):
     desc_before = [describe(m) for m in created]
     loaded = None
     err = None
-    inj = Injector([lw.tmp], fault_at=spec.get("at"), mode="load", label=lw.label)
+    inj = Injector([lw.tmp], fault_at=spec.get("at"), mode="load", label=lw.label,
+                   policy=spec.get("policy", "once"), exc=spec.get("exc", "os"))
     with Hooks() as hk:
         with quiet():
             with inj:
@@ -861,8 +975,11 @@ def run_load_case(lw, spec, out, stats, lines):
         stats["load_err:" + err] += 1
     if loaded is not None:
         created.append(loaded)
-    hist = [spec, "pre=%s read_model(%s %s %s at=%s) -> %s" % (
-        spec["pre"], fmt, how, spec.get("member"), spec.get("at"), err or "ok")]
+    hist = [spec, "pre=%s read_model(%s %s %s at=%s%s) -> %s" % (
+        spec["pre"], fmt, how, spec.get("member"), spec.get("at"),
+        ":%s:%s" % (spec["exc"], spec["policy"]) if spec.get("exc") else "", err or "ok")]
+    if spec.get("at") is not None and err is None:
+        stats["load_absorbed:%s" % (inj.fired[0] if inj.fired else "-")] += 1
 
     def idx(impl):
         for i, m in enumerate(created):
@@ -881,8 +998,9 @@ def run_load_case(lw, spec, out, stats, lines):
     after = [(k, id(v)) for k, v in _sys.models.items()]
     if _sys.serializing is not None or _sys.iomanager.serializing is not None:
         out.fail("serializing flag still set after a %s load" % ("failed" if err else "successful"), hist)
-    if os.listdir(lw.T) and not (inj.fired and inj.fired[0] in ("rmdir", "unlink")):
-        out.fail("temporary directory left behind after a load", hist)
+    left = sorted(n for n in os.listdir(lw.T) if not n.startswith("openpyxl."))
+    if left and not (inj.fired and inj.fired[0] in ("rmdir", "unlink")):
+        out.fail("temporary directory left behind after a load", hist, detail={"left": left})
     if err is not None:
         if sorted(i for _, i in after) != sorted(i for _, i in before):
             out.fail("a failed load changed the set of registered models: %s -> %s" % (
@@ -901,6 +1019,11 @@ def run_load_case(lw, spec, out, stats, lines):
         if describe(loaded) != lw.expected and how == "none":
             out.fail("a load reported success but the model differs from what was saved", hist)
     # later saves and loads behave normally
+    stats["load_cases"] += 1
+    if not spec.get("later", True):
+        close_all()
+        return list(inj.trace)
+    stats["later_checked"] += 1
     later = None
     try:
         with quiet():
@@ -922,7 +1045,7 @@ def run_load_case(lw, spec, out, stats, lines):
     if sorted(id(v) for v in _sys.models.values()) != sorted(i for _, i in after):
         out.fail("later load/save/close left other models registered", hist)
     close_all()
-    return len(inj.trace)
+    return list(inj.trace)
 
 
 def load_specs(ctx, lw, rng):
@@ -967,7 +1090,7 @@ def _compare(out, lines):
     return n
 
 
-def _run_spec(ctx, spec, out, stats, lines, tmp, worlds, lworlds, rng):
+def _run_spec(ctx, spec, out, stats, lines, tmp, worlds, lworlds, rng, nth=[0]):
     if spec["type"] == "save":
         key = (spec["model"], spec["log_input"])
         if key not in worlds:
@@ -988,6 +1111,10 @@ def _run_spec(ctx, spec, out, stats, lines, tmp, worlds, lworlds, rng):
             lworlds[key] = LoadWorld(d, key)
         lw = lworlds[key]
         tempfile.tempdir = lw.T
+        # quick tier: the load / save / load that follows is made after every third case
+        nth[0] += 1
+        if ctx.tier != "thorough" and "later" not in spec and nth[0] % 3 != 0:
+            spec = dict(spec, later=False)
         return run_load_case(lw, spec, out, stats, lines)
 
 
@@ -1017,13 +1144,21 @@ def run(ctx, out):
             _run_spec(ctx, spec, out, stats, lines, tmp, worlds, lworlds, rng)
             stats["corpus_cases"] += 1
         # 1. saves: for each program the corpus histories, then generated ones
-        progs = [("nested", False), ("flat", True), ("pandas", False)]
         if ctx.tier == "thorough":
-            progs += [("nested", True), ("flat", False), ("pandas", True)]
+            progs = [(k, li) for li in (False, True) for k in MODEL_KINDS]
+        else:
+            # one plain model each way, the model with every kind of IO data, one of the single-kind ones
+            progs = [("nested", False), ("flat", True), ("mixed", False),
+                     (ctx.rng("iokind").choice(["pandas", "module", "excel"]), True)]
         n_random = ctx.n(2, 36)
         for pi, (kind, log_input) in enumerate(progs):
-            hists = [h for i, h in enumerate(CORPUS) if ctx.tier == "thorough" or (i + pi) % 3 == 0 or
-                     (pi == 0 and i in (0, 2))]
+            if kind in IO_KINDS:
+                hists = [h for i, h in enumerate(CORPUS_IO) if ctx.tier == "thorough" or kind == "mixed" or i == 0]
+                if ctx.tier == "thorough":
+                    hists += CORPUS
+            else:
+                hists = [h for i, h in enumerate(CORPUS) if ctx.tier == "thorough" or (i + pi) % 3 == 0 or
+                         (pi == 0 and i in (0, 2))]
             for i in range(n_random):
                 r = ctx.rng("hist", kind, log_input, i)
                 hists.append(gen_history(r, r.randrange(1, 7)))
@@ -1036,7 +1171,8 @@ def run(ctx, out):
                 if len(samples) < 3:
                     samples.append({"model": kind, "log_input": log_input, "saves": h})
         # 2. loads that fail
-        for kind in (MODEL_KINDS if ctx.tier == "thorough" else ["nested", "pandas"]):
+        for kind in (MODEL_KINDS if ctx.tier == "thorough" else
+                     ["nested", ctx.rng("loadkind").choice(["pandas", "module"])]):
             spec0 = {"type": "load", "model": kind, "fmt": "dir", "how": "none", "member": None,
                      "pre": "none", "at": None}
             _run_spec(ctx, spec0, out, stats, lines, tmp, worlds, lworlds, rng)
@@ -1048,14 +1184,25 @@ def run(ctx, out):
             for fmt in ("dir", "zip"):
                 base = {"type": "load", "model": kind, "fmt": fmt, "how": "none", "member": None,
                         "pre": "same", "at": None}
-                nops = _run_spec(ctx, base, out, stats, lines, tmp, worlds, lworlds, rng)
+                ltrace = _run_spec(ctx, base, out, stats, lines, tmp, worlds, lworlds, rng)
+                nops = len(ltrace)
                 ks = list(range(nops))
                 if ctx.tier != "thorough" and nops > 12:
                     ks = sorted(set(list(range(6)) + list(range(6, nops, 4)) + [nops - 2, nops - 1]))
                 for j, k in enumerate(ks):
-                    spec = dict(base, at=k, pre=PRE[j % len(PRE)])
-                    _run_spec(ctx, spec, out, stats, lines, tmp, worlds, lworlds, rng)
-                    stats["load_fault_points"] += 1
+                    # a transient OSError at every chosen operation; the other error classes / a
+                    # persistent error in turn (thorough: every combination at every operation)
+                    pols = [("os", "once")] + (LOAD_POLICIES[1:] if ctx.tier == "thorough"
+                                                else [LOAD_POLICIES[1 + j % (len(LOAD_POLICIES) - 1)]])
+                    for pj, (exc, policy) in enumerate(pols):
+                        if not policy_allowed(ltrace[k], None, exc, policy):
+                            continue
+                        spec = dict(base, at=k, pre=PRE[(j + pj) % len(PRE)])
+                        if (exc, policy) != ("os", "once"):
+                            spec.update(exc=exc, policy=policy)
+                        _run_spec(ctx, spec, out, stats, lines, tmp, worlds, lworlds, rng)
+                        stats["load_fault_points"] += 1
+                        stats["load_policy:%s:%s" % (exc, policy)] += 1
             if len(samples) < 5:
                 samples.append(spec)
         compared = _compare(out, lines)
@@ -1076,8 +1223,12 @@ def run(ctx, out):
     })
     out.assumptions.append(
         "faults are exceptions raised at a primitive file operation (os.rename/replace/unlink/rmdir/mkdir, open for "
-        "writing, ZipFile.writestr/write/close, pickler dump; for loads also open for reading and unpickler load); "
-        "torn writes, power loss and a non-atomic cross-device shutil.move are outside the model")
+        "writing, ZipFile.writestr/write/close, pickler dump; for loads also open for reading and unpickler load), "
+        "of class OSError / PermissionError / FileNotFoundError, once or persistently (every further operation of "
+        "the same kind on the same file fails too); a failing ZipFile.close releases the file without writing the "
+        "central directory; torn writes, power loss and a non-atomic cross-device shutil.move are outside the model; "
+        "a persistent PermissionError of an rmdir is not injected (CPython's TemporaryDirectory._rmtree recurses "
+        "without bound on it)")
 
 
 def replay(ctx, payload, out):
